@@ -33,6 +33,9 @@ type LConv struct {
 	// GuardedDecl: the converter interface itself is declared in a file guarded by
 	// //go:build <tag>; only the types live in the unguarded file.
 	GuardedDecl bool `json:"guarded_decl,omitempty"`
+	// ExtIn: the converter uses an extend function that lives in ANOTHER declaring package
+	// (directory); that package must then be loaded with the run's build tags as well.
+	ExtIn string `json:"ext_in,omitempty"`
 	// Short: only the first method is declared (the output gets shorter).
 	Short bool `json:"short,omitempty"`
 	// PkgFirst: the output:package line is written above the output:file line.
@@ -223,6 +226,11 @@ func (s *LSpec) Render() map[string]string {
 		}
 		files[key] = b.String()
 		for _, c := range convs {
+			if c.ExtIn != "" {
+				lf := path.Join(c.ExtIn, "ext_"+strings.ToLower(c.Name)+"_lib.go")
+				files[lf] = fmt.Sprintf("package %s\n\nimport decl %q\n\nfunc Ext%s(v decl.Raw%s) decl.Cooked%s { return decl.Cooked%s(v) }\n",
+					s.PkgNames[c.ExtIn], importPath(c.Dir), c.Name, c.Name, c.Name, c.Name)
+			}
 			if c.Guarded {
 				gf := path.Join(c.Dir, "ext_"+strings.ToLower(c.Name)+"_guarded.go")
 				files[gf] = fmt.Sprintf("//go:build %s\n\npackage %s\n\nfunc Ext%s(v Raw%s) Cooked%s { return Cooked%s(v) }\n",
@@ -291,6 +299,9 @@ func (s *LSpec) renderConv(b *strings.Builder, c *LConv) {
 	if c.Guarded {
 		lines = append(lines, "// goverter:extend Ext"+n)
 	}
+	if c.ExtIn != "" {
+		lines = append(lines, "// goverter:extend "+importPath(c.ExtIn)+":Ext"+n)
+	}
 	if c.Raw != "" {
 		lines = append(lines, "// goverter:output:raw "+c.Raw)
 	}
@@ -333,7 +344,7 @@ func (s *LSpec) renderConv(b *strings.Builder, c *LConv) {
 		fmt.Fprintf(b, "%s\nvar (\n%s    %s func%s\n%s)\n\n", strings.Join(lines, "\n"), methodDoc, c.method(0), sig0, m1)
 	}
 	raw, cooked := "int", "int"
-	if c.Guarded {
+	if c.Guarded || c.ExtIn != "" {
 		raw, cooked = "Raw"+n, "Cooked"+n
 		fmt.Fprintf(b, "type Raw%s int\ntype Cooked%s int\n", n, n)
 	}
@@ -500,6 +511,19 @@ func DrawLayout(rng *rand.Rand, nConv int, opts LayoutOpts) *LSpec {
 			c.Guarded = true
 		}
 		c.PkgFirst = rng.IntN(2) == 0
+		if opts.Guarded && !c.Guarded && c.Kind == "interface" && len(dirs) > 1 && rng.IntN(5) == 0 &&
+			(c.OutFile == "" || strings.HasPrefix(c.OutFile, "@cwd/out-")) {
+			// extend function in another declaring package (no import cycle: only generated
+			// code, which lives outside the declaring package here, imports both)
+			// the library package imports the declaring package; only "later" directories may
+			// host libraries for "earlier" ones, so that no import cycle can arise
+			for _, d := range dirs {
+				if d > c.Dir {
+					c.ExtIn = d
+					break
+				}
+			}
+		}
 		if rng.IntN(6) == 0 {
 			if s.FileConstraint == nil {
 				s.FileConstraint = map[string]string{}
